@@ -10,9 +10,9 @@ FmtClsAll == {"std", "with_dot", "no_r", "date_only", "with_space", "percent", "
 OpClsAll == {"log_plain", "log_empty_msg", "log_multiline", "log_nonascii", "log_huge", "log_no_fields",
              "log_target_empty", "log_brace_open", "log_brace_empty", "log_brace_unbalanced", "log_brace_trailing_comma",
              "log_brace_multibyte", "log_brace_unknown", "log_brace_default", "trigger", "flush", "elf", "reopen",
-             "parse_garbage", "parse_unicode", "restart", "reset", "dir_removed"}
+             "parse_garbage", "parse_unicode", "restart", "reset", "dir_removed", "log_recursive"}
 OpClsQ == {"log_plain", "log_no_fields", "log_brace_open", "log_brace_multibyte", "log_brace_unknown", "trigger", "elf",
-           "parse_garbage", "restart", "dir_removed"}
+           "parse_garbage", "restart", "dir_removed", "log_recursive"}
 DirClsEmpty == {"empty"}
 NamingsNum == {"Num"}
 OutClsFile == {"file"}
